@@ -1,11 +1,12 @@
 """C12 — the Java back end agrees with the other execution routes.
 Lean: Gen/JMap.lean (translated on every run from genjava.c / javacode.c / foamj), Model/JSem.lean,
 Model/JSpec.lean, Props/C12.lean.  Tie: translator + JVM correspondence (part jmap) and end-to-end
+the real expression printer vs Model/JPrint.lean and vs Java's grammar (part jprint), and end-to-end
 search -Fjava -> javac -> java vs -Ginterp (part javasearch)."""
 from vlib import common
-from checks.parts import jmap, javasearch
+from checks.parts import jmap, jprint, javasearch
 
-PARTS = [jmap, javasearch]
+PARTS = [jmap, jprint, javasearch]
 
 def run(ctx):
     # Gen/JMap.lean is regenerated from the tree's current sources before the Lean build (rewritten only on
